@@ -48,6 +48,7 @@ type CPkt struct {
 	Verdict   int
 	Payload   []byte // declared payload of a DATA packet
 	Type      uint16 // for KUnknown
+	AnyDenied bool   // a refusal may carry any of the access-denied status codes
 }
 
 func (p CPkt) String() string {
@@ -490,6 +491,20 @@ func CheckTunnel(c *Ctx, t *Tun, mc ModelCfg, prop string) *TunVerdict {
 			}
 			switch pk.Verdict {
 			case HostDenied:
+				if pk.AnyDenied {
+					before := ri
+					expectErr(i, pk, codec.PktChannelResponse, false, 0, "C04")
+					if c.S.Viol == nil && ri > before {
+						switch ctrl[before].Pkt.Status {
+						case codec.StatusRAPAccessDenied, codec.StatusAccessDenied, codec.StatusNAPAccessDenied, codec.StatusCookieAuthDenied:
+						default:
+							failf(c, "C04", "wrong-status", "%s: %s refused with %#x which is not an access-denied status", name, pk, ctrl[before].Pkt.Status)
+						}
+					} else if c.S.Viol == nil && !optional && !t.closed {
+						failf(c, "C04", "refusal-not-reported", "%s: %s must be refused with an access-denied status but nothing was sent", name, pk)
+					}
+					continue
+				}
 				expectErr(i, pk, codec.PktChannelResponse, true, codec.StatusRAPAccessDenied, "C03")
 			case HostUnreachable:
 				v.Channel, v.ChannelHost, v.DialExpected = i, pk.HostKey, true
